@@ -2,7 +2,7 @@
 
 E1 x E2: for every even grid size N in the bound and every configuration of the lattice
 (wavelength x input spacing x magnification / focal length x distance of both signs x the
-Python-float and numpy.float64 spelling of the distance) the COMPLETE operator matrix T of
+scalar type the parameters are passed in) the COMPLETE operator matrix T of
 each of the four propagators is extracted from all N^2 unit inputs e_k and all i*e_k.
   * complex linearity   T(i e_k) = i T(e_k) for every k, superposition on a family of
                         combinations of basis vectors
@@ -22,45 +22,77 @@ from mc import linear
 PROPERTY = "C10"
 LEVEL = "exploration"
 TECHNIQUE = ("bounded exhaustive enumeration (even N <= bound x wavelengths x spacings x magnifications / "
-             "focal lengths x distances of both signs x scalar type of z) with basis exhaustion of each "
-             "propagator (full N^2 x N^2 operator from all unit inputs e_k and i e_k)")
+             "focal lengths x distances of both signs x scalar type of the parameters) with basis exhaustion of each "
+             "propagator (full N^2 x N^2 operator from all unit inputs e_k and i e_k); per case a call history "
+             "with every single-parameter sibling configuration and the other propagators in between")
 RULE = ("cases = product(propagator in {angular_spectrum, one_step, two_step, lens}, even N, wavelength, "
         "input spacing, magnification (angular spectrum, two-step) or focal length (lens), distance z, "
-        "type of z in {float, numpy.float64}); each case extracts the whole operator; every case is "
+        "type of z in {float, numpy.float64} (a sub-lattice and the unit-less rows also with every integer-valued "
+        "parameter as Python int / numpy.int64)); each case extracts the whole operator; every case is "
         "non-trivial (z != 0, N >= 2, quadratic phase factors differ from 1)")
 ASSUMPTIONS = [
     "values outside the (N, wavelength, spacing, magnification, distance, focal length) lattice are not "
     "covered; for an enumerated configuration the identities are decided for every complex input by "
     "linearity, which is itself tested on the basis (e_k, i e_k, superpositions)",
-    "square even grids only (the propagators assume square inputs; odd N is outside the quantifier)",
-    "tolerance 1e-10 on the dimensionless operator identities (measured residuals <= 1e-14)",
+    "square even grids only (the propagators assume square inputs; odd N is outside the quantifier and is not run)",
+    "tolerance 1e-10 on the dimensionless operator identities (measured residuals on the unchanged library: "
+    "<= 2e-15 for the complete operators, <= 1e-12 for the unnormalised Gram residual of the 26 unit fields on "
+    "grids of up to 2050 points, which grows like N^2 times the rounding unit)",
+    "derived obligations, not literal words of the statement, are checked because 'P is a linear function of the "
+    "field' implies them for a function of the VALUES of its argument: the caller's input array is left as it "
+    "was, a result the caller holds is not overwritten by a later call, a result is not shared with state kept "
+    "by the library, the zero field gives the zero field exactly (0 * finite = 0), the result does not depend "
+    "on the memory layout / exactly-representing dtype of the field nor on which other configuration was "
+    "propagated before, a keyword call (documented parameter names; skipped when the names are not accepted) "
+    "gives the positional result",
+    "a field or parameter stored in single precision is NOT required to give double-precision accuracy: "
+    "float32 / complex64 fields are compared at 1e-5 per radian of the largest quadratic phase of the "
+    "configuration (at least 1e-5); single-precision scalars for wavelength / spacing / distance are not run",
 ]
 ENGINES = ["E1-product-enumeration", "E2-basis-exhaustion"]
-LEVEL_TEXT = ("Every even N <= 6 (quick) / <= 12 (thorough), 2 wavelengths, 2 input spacings, 4 magnifications, "
-              "5 distances of both signs (3 focal lengths for the lens), each as Python float and as "
-              "numpy.float64, are enumerated completely for all four propagators; for each the full operator "
+LEVEL_TEXT = ("Every even N <= 6 (quick) / <= 16 (thorough), 2 wavelengths, 2 input spacings, 6 (thorough: 10) "
+              "magnifications, 5 (10) distances of both signs (3 (6) focal lengths for the lens), each with z as "
+              "Python float and as numpy.float64 (a sub-lattice and two unit-less rows also with Python int and "
+              "numpy.int64 parameters), plus six rows of extreme geometries, are enumerated completely for all "
+              "four propagators; for each the full operator "
               "matrix is extracted from all unit inputs, so linearity and power conservation are decided "
-              "for all complex inputs of that size, not for sampled fields.")
-LEVEL_NOTE = ("Trusted: numpy matrix arithmetic. Not covered: N beyond the bound, non-square inputs, parameter "
-              "values outside the lattice. Output spacing of the single-transform propagators is taken as "
-              "|lambda z / (N d1)| (only its square enters).")
+              "for all complex inputs of that size, not for sampled fields. Grids of 64 ... 600 (thorough: 2050) "
+              "points, powers of two included, are covered on the span of 26 unit fields and two dense fields.")
+LEVEL_NOTE = ("Trusted: numpy matrix arithmetic. Not covered: N beyond the bound, odd N, non-square inputs, parameter "
+              "values outside the lattice, single-precision scalar parameters. Output spacing of the "
+              "single-transform propagators is taken as |lambda z / (N d1)| (only its square enters).")
 
 TOL = 1e-10
+TOL32 = 1e-5          # single-precision fields, per radian of the largest quadratic phase (see _phase_scale)
 WVLS = [0.5e-6, 1.5e-6]
 D1S = [0.01, 0.05]
 MAGS = [1.0, 0.5, 2.0, 1.3, 1.005, 0.9999]      # incl. magnifications within a percent of 1
 ZS = [100.0, -100.0, 2500.0, -2500.0, 1.0e4]
 FOCALS = [0.1, 2.5, -2.5]
 ZTYPES = ["float", "np"]
+# every integer-valued parameter (wavelength, spacings, distance) handed over as Python int / numpy.int64
+INT_TYPES = ["int", "np.int64"]
 
 
 def NS(tier):
-    return [2, 4, 6] if tier == "quick" else [2, 3, 4, 5, 6, 7, 8, 10, 12, 14, 16]
+    # even N only: the statement quantifies over even square grids (an implementation may refuse odd N)
+    return [2, 4, 6] if tier == "quick" else [2, 4, 6, 8, 10, 12, 14, 16]
+
+
+def _focals(tier):
+    return FOCALS if tier == "quick" else FOCALS + [-0.1, 30.0, 400.0]
 
 
 def BOUNDS(tier):
-    return {"N": NS(tier), "N_big(span of 26 unit fields + dense field)": BIG_NS[tier] + HUGE_NS[tier], "wavelengths": WVLS, "input_spacings": D1S, "magnifications": _mags(tier),
-            "distances": _zs(tier), "focal_lengths": FOCALS if tier == "quick" else FOCALS + [-0.1, 30.0, 400.0], "z_scalar_types": ZTYPES,
+    return {"N": NS(tier), "N_big(span of 26 unit fields + dense fields)": BIG_NS[tier] + HUGE_NS[tier],
+            "wavelengths": WVLS, "input_spacings": D1S, "magnifications": _mags(tier),
+            "distances": _zs(tier), "focal_lengths": _focals(tier), "z_scalar_types": ZTYPES,
+            "integer_parameter_types(sub-lattice N=4 and unit-less rows)": INT_TYPES,
+            "extreme_rows(wavelength, spacing, distances, focal lengths)": [list(r) for r in EXTREME],
+            "unitless_rows(wavelength, spacing, distances, focal lengths)": [list(r) for r in UNIT_ROWS],
+            "big_long_path_rows": [list(r) for r in BIG_EXTRA],
+            "sibling_histories": "per case: wavelength x3, spacing x5, -z, another magnification, N+2, the other "
+                                 "propagators on the same geometry, one-step at the two-step's first leg",
             "propagators": ["angular_spectrum", "one_step", "two_step", "lens"]}
 
 
@@ -70,6 +102,10 @@ def _zs(tier):
 
 def _mags(tier):
     return MAGS if tier == "quick" else MAGS + [0.25, 0.77, 3.0, 1.001]
+
+
+def _integral(v):
+    return float(v) == int(v)
 
 
 def cases(tier):
@@ -87,29 +123,57 @@ def cases(tier):
                                    {"prop": prop, "N": N, "wvl": wvl, "d1": d1, "m": m, "z": z, "zt": zt})
                 yield Case("one_step:%s:z=%g:ztype=%s" % (base, z, zt),
                            {"prop": "one_step", "N": N, "wvl": wvl, "d1": d1, "z": z, "zt": zt})
-            for f in (FOCALS if tier == "quick" else FOCALS + [-0.1, 30.0, 400.0]):
+            for f in _focals(tier):
+                yield Case("lens:%s:f=%g:ztype=%s" % (base, f, zt),
+                           {"prop": "lens", "N": N, "wvl": wvl, "d1": d1, "z": f, "zt": zt})
+    # the distance / focal length as Python int and numpy.int64 (a height or a focal length typed `100`, or read from
+    # an integer array): one grid size and one (wavelength, spacing) pair of the lattice, every integral distance
+    N, wvl, d1 = 4, WVLS[0], D1S[1]
+    base = "N=%d:lam=%g:d1=%g" % (N, wvl, d1)
+    for zt in INT_TYPES:
+        for z in _zs(tier):
+            if not _integral(z):
+                continue
+            for m in _mags(tier):
+                for prop in ("angular_spectrum", "two_step"):
+                    yield Case("%s:%s:m=%g:z=%g:ztype=%s" % (prop, base, m, z, zt),
+                               {"prop": prop, "N": N, "wvl": wvl, "d1": d1, "m": m, "z": z, "zt": zt})
+            yield Case("one_step:%s:z=%g:ztype=%s" % (base, z, zt),
+                       {"prop": "one_step", "N": N, "wvl": wvl, "d1": d1, "z": z, "zt": zt})
+        for f in _focals(tier) + [3.0, -40.0]:
+            if _integral(f):
                 yield Case("lens:%s:f=%g:ztype=%s" % (base, f, zt),
                            {"prop": "lens", "N": N, "wvl": wvl, "d1": d1, "z": f, "zt": zt})
     # corners of the parameter space far from the adaptive-optics lattice above ("all wavelengths, samplings and
     # distances"): sampling finer than the wavelength, very long and very short distances, millimetre waves with a
-    # long focal length (a physically large focal plane)
-    for N in NS(tier)[1:3]:
-        for wvl, d1, zs, fs in EXTREME:
-            base = "N=%d:lam=%g:d1=%g" % (N, wvl, d1)
-            for z in zs:
-                for m in (1.0, 2.0, 0.5):
-                    for prop in ("angular_spectrum", "two_step"):
-                        yield Case("%s:%s:m=%g:z=%g:ztype=float" % (prop, base, m, z),
-                                   {"prop": prop, "N": N, "wvl": wvl, "d1": d1, "m": m, "z": z, "zt": "float"})
-                yield Case("one_step:%s:z=%g:ztype=float" % (base, z),
-                           {"prop": "one_step", "N": N, "wvl": wvl, "d1": d1, "z": z, "zt": "float"})
-            for f in fs:
-                yield Case("lens:%s:f=%g:ztype=float" % (base, f),
-                           {"prop": "lens", "N": N, "wvl": wvl, "d1": d1, "z": f, "zt": "float"})
+    # long focal length (a physically large focal plane); unit-less / non-SI numbers (wavelength 1, spacing 1) with
+    # every parameter also as Python int and numpy.int64
+    for N in (4, 6):
+        for rows, zts in ((EXTREME, ("float",)), (UNIT_ROWS, ("float",) + tuple(INT_TYPES))):
+            for (wvl, d1, zs, fs), zt in itertools.product(rows, zts):
+                base = "N=%d:lam=%g:d1=%g" % (N, wvl, d1)
+                for z in zs:
+                    for m in (1.0, 2.0, 0.5):
+                        for prop in ("angular_spectrum", "two_step"):
+                            yield Case("%s:%s:m=%g:z=%g:ztype=%s" % (prop, base, m, z, zt),
+                                       {"prop": prop, "N": N, "wvl": wvl, "d1": d1, "m": m, "z": z, "zt": zt})
+                    yield Case("one_step:%s:z=%g:ztype=%s" % (base, z, zt),
+                               {"prop": "one_step", "N": N, "wvl": wvl, "d1": d1, "z": z, "zt": zt})
+                for f in fs:
+                    yield Case("lens:%s:f=%g:ztype=%s" % (base, f, zt),
+                               {"prop": "lens", "N": N, "wvl": wvl, "d1": d1, "z": f, "zt": zt})
 
 
-BIG_NS = {"quick": [64, 130], "thorough": [64, 130, 257]}
-HUGE_NS = {"quick": [600], "thorough": [600, 1030, 2050]}      # above 512 / 1024 / 2048, not multiples of 128
+# even sizes only; powers of two (the sizes adaptive-optics simulations use: a radix-2 / planned-FFT path) next to
+# sizes that are not multiples of 128 just above 512 / 1024 / 2048
+BIG_NS = {"quick": [64, 128, 130], "thorough": [64, 128, 130, 256, 258]}
+HUGE_NS = {"quick": [512, 600], "thorough": [512, 600, 1024, 1030, 2048, 2050]}
+# (wavelength, input spacing, distances, focal lengths) on the big grids besides z = +-2500 m:
+# paths longer than N d1 d2 / lambda (the sampled band no longer holds the chirp) and sub-wavelength sampling
+BIG_EXTRA = [
+    (0.5e-6, 0.01, [1.0e6, -3.0e5], [1.0e3]),
+    (1.0e-6, 0.4e-6, [3.0e-6, -5.0e-5], [1.0e-4]),
+]
 
 
 def big_cases(tier):
@@ -128,6 +192,18 @@ def big_cases(tier):
             for f in (2.5, -2.5):
                 yield Case("big:lens:%s:f=%g" % (base, f),
                            {"big": True, "prop": "lens", "N": N, "wvl": wvl, "d1": d1, "z": f, "zt": "float"})
+        for wvl, d1, zs, fs in BIG_EXTRA:
+            base = "N=%d:lam=%g:d1=%g" % (N, wvl, d1)
+            for z in zs:
+                for m in (1.0, 1.3):
+                    for prop in ("angular_spectrum", "two_step"):
+                        yield Case("big:%s:%s:m=%g:z=%g" % (prop, base, m, z),
+                                   {"big": True, "prop": prop, "N": N, "wvl": wvl, "d1": d1, "m": m, "z": z, "zt": "float"})
+                yield Case("big:one_step:%s:z=%g" % (base, z),
+                           {"big": True, "prop": "one_step", "N": N, "wvl": wvl, "d1": d1, "z": z, "zt": "float"})
+            for f in fs:
+                yield Case("big:lens:%s:f=%g" % (base, f),
+                           {"big": True, "prop": "lens", "N": N, "wvl": wvl, "d1": d1, "z": f, "zt": "float"})
 
 
 def huge_cases(tier):
@@ -142,11 +218,56 @@ def huge_cases(tier):
                    {"big": True, "prop": "one_step", "N": N, "wvl": wvl, "d1": d1, "z": -2500.0, "zt": "float"})
         yield Case("big:lens:%s:f=2.5" % base,
                    {"big": True, "prop": "lens", "N": N, "wvl": wvl, "d1": d1, "z": 2.5, "zt": "float"})
+        # a path longer than N d1 d2 / lambda on the largest grids as well
+        yield Case("big:angular_spectrum:%s:m=1.3:z=1e+06" % base,
+                   {"big": True, "prop": "angular_spectrum", "N": N, "wvl": wvl, "d1": d1, "m": 1.3, "z": 1.0e6, "zt": "float"})
 
 
-def _scale_and_reuse(o, fn, x):
+def _dense(N, which=0):
+    """dense complex fields without a single zero pixel (real parts are odd multiples of 1/4 or 1/2)"""
+    idx = numpy.arange(N * N)
+    if which == 0:
+        return (((idx * 7) % 5 - 1.5) + 1j * ((idx * 3) % 7 - 3.0)).reshape(N, N)
+    return (((idx * 11) % 13 - 6.25) + 1j * ((idx * 5) % 11 - 5.0)).reshape(N, N)
+
+
+def _phase_scale(p):
+    """largest argument (radians, at least 1) of the quadratic phase factors of configuration p: the accuracy an
+    implementation that keeps a single-precision field in single precision throughout can reach is the single
+    precision rounding unit times this number"""
+    N, wvl, d1 = p["N"], float(p["wvl"]), float(p["d1"])
+    z = abs(float(p["z"]))
+    if p["prop"] in ("angular_spectrum", "two_step"):
+        d2 = p["m"] * d1
+    else:
+        d2 = wvl * z / (N * d1)
+    r2 = 2.0 * (N / 2.0 * max(d1, d2)) ** 2
+    legs = [z]
+    if p["prop"] == "two_step":
+        m = p["m"]
+        z1 = z / (1 + m) if m == 1 else z / abs(1 - m)
+        legs = [z1, abs(z - z1) if m == 1 else z1 * m]
+        r2 = max(r2, 2.0 * (wvl * z1 / (2.0 * d1)) ** 2)
+    ph = [numpy.pi / (wvl * max(l, 1e-300)) * r2 for l in legs]
+    if p["prop"] == "angular_spectrum":
+        # Q1 / Q3 carry (1 - m), the transfer function pi lambda z f^2 / m up to the corner frequency
+        ph = [ph[0] * max(1.0, abs(1.0 - p["m"])), numpy.pi * wvl * z / (2.0 * p["m"] * d1 ** 2)]
+    return max([1.0] + ph)
+
+
+def _rel(a, b):
+    a = numpy.asarray(a)
+    b = numpy.asarray(b)
+    if a.shape != b.shape:
+        return float("inf")
+    e = _maxabs(a - b) / max(_maxabs(b), 1e-300)
+    return e if e == e else float("inf")
+
+
+def _scale_and_reuse(o, fn, x, p):
     """P(s U) = s P(U) over 60 decades of amplitude (relative to the scaled result: an absolute threshold anywhere
-    inside shows), and a call history on one caller-owned complex128 field (P(x) evaluated, x used again)"""
+    inside shows), a call history on one caller-owned complex128 field (P(x) evaluated, x used again), the same
+    values in other memory layouts / dtypes, and call histories with sibling configurations in between"""
     from mc import variants
     base = numpy.asarray(fn(x.copy()))
     zero = numpy.asarray(fn(numpy.zeros_like(x)))
@@ -156,7 +277,103 @@ def _scale_and_reuse(o, fn, x):
         got = numpy.asarray(fn(x * s_))
         o.close("homogeneous_over_amplitude", _maxabs(got / s_ - base) / max(_maxabs(base), 1e-300), TOL, sub="s=%g" % s_)
     k = variants.check_reuse(o, "input_field", fn, x, TOL, mutate=lambda a: a.__imul__(-0.5j))
-    o.stat("lib_calls", 6 + k)
+    o.stat("lib_calls", 7 + k)
+    # the same values stored differently (Fortran order, transposed / strided views, a read-only array; for a
+    # non-negative integer-valued real field also int64 / int32 / uint8 / uint16): same field, same result.
+    # Results are normalised to max|P(x)| = 1, so TOL is a relative tolerance.
+    s0 = max(_maxabs(base), 1e-300)
+
+    def fnn(a):
+        return numpy.asarray(fn(a)) / s0
+    exact = ("int64", "int32", "uint8", "uint16")
+    k = variants.check_storage(o, "input_independent_of_storage", fnn, x, TOL, sub="complex", kinds=exact)
+    xr = ((numpy.arange(x.size) * 5) % 7).astype(float).reshape(x.shape)
+    k += variants.check_storage(o, "input_independent_of_storage", fnn, xr, TOL, sub="real", kinds=exact)
+    # single-precision storage of the same values (exactly representable): single-precision agreement
+    ps = _phase_scale(p)
+    y64 = numpy.asarray(fn(x.astype(numpy.complex64)))
+    o.close("single_precision_field_is_same_field", _rel(y64, base) / ps, TOL32, sub="complex64")
+    y32 = numpy.asarray(fn(xr.astype(numpy.float32)))
+    o.close("single_precision_field_is_same_field", _rel(y32, numpy.asarray(fn(xr.astype(complex)))) / ps, TOL32, sub="float32")
+    o.stat("lib_calls", k + 3)
+    _histories(o, p, x, base)
+    _keyword_call(o, p, x, base)
+
+
+def _siblings(p):
+    """configurations that differ from p in ONE parameter (and the other propagators on the same geometry):
+    state the library might keep under a key that omits that parameter shows when the two are called in turn"""
+    out = []
+
+    def sib(tag, **kw):
+        q = dict(p)
+        q.pop("big", None)
+        q.update(kw)
+        out.append((tag, q))
+    sib("wavelength", wvl=p["wvl"] * 3)
+    sib("spacing", d1=p["d1"] * 5)
+    sib("sign_of_z", z=-p["z"])
+    sib("N", N=p["N"] + 2)
+    if p["prop"] in ("angular_spectrum", "two_step"):
+        m = p["m"]
+        sib("magnification", m=1.3 if m != 1.3 else 2.0)
+        sib("other_propagator", prop="two_step" if p["prop"] == "angular_spectrum" else "angular_spectrum")
+        sib("one_step", prop="one_step")
+        sib("lens", prop="lens")
+        if p["prop"] == "two_step":
+            # the one-step propagator over the first leg of the two-step path
+            sib("one_step_first_leg", prop="one_step", z=p["z"] / (1 + m) if m == 1 else p["z"] / (1 - m), zt="float")
+    elif p["prop"] == "one_step":
+        sib("lens", prop="lens")
+        sib("two_step", prop="two_step", m=1.3)
+        sib("two_step_first_leg", prop="two_step", m=0.5, z=p["z"] / 2.0, zt="float")   # first leg z' / (1 - m) = z
+        sib("angular_spectrum", prop="angular_spectrum", m=1.0)
+    else:
+        sib("one_step", prop="one_step")
+        sib("two_step", prop="two_step", m=1.3)
+        sib("angular_spectrum", prop="angular_spectrum", m=1.0)
+    return out
+
+
+def _histories(o, p, x, y0):
+    """for every sibling configuration s:  s(x') ; P(x).  The sibling's own output conserves power (it may read
+    what P left behind) and P(x) is what it was before (it may read what s left behind).  On a library without
+    state this is 2 plain calls per sibling."""
+    if p["N"] > 600:
+        return
+    d1 = float(p["d1"])
+    for tag, q in _siblings(p):
+        fs, dout_s = propagator(q)
+        xs = x if q["N"] == p["N"] else _dense(q["N"])
+        ys = numpy.asarray(fs(xs.copy()))
+        pin = float(numpy.sum(numpy.abs(xs) ** 2) * float(q["d1"]) ** 2)
+        pout = float(numpy.sum(numpy.abs(ys) ** 2) * dout_s ** 2)
+        o.close("sibling_call_conserves_power", abs(pout / pin - 1.0), TOL, sub=tag)
+        fn, _ = propagator(p)
+        y = numpy.asarray(fn(x.copy()))
+        o.close("same_result_after_sibling_call", _rel(y, y0), TOL, sub=tag)
+        o.stat("lib_calls", 2)
+
+
+KEYWORDS = {
+    "angular_spectrum": ("inputComplexAmp", "wvl", "inputSpacing", "outputSpacing", "z"),
+    "two_step": ("Uin", "wvl", "d1", "d2", "z"),
+    "one_step": ("Uin", "wvl", "d1", "z"),
+    "lens": ("Uin", "wvl", "d1", "f"),
+}
+
+
+def _keyword_call(o, p, x, y0):
+    """the documented parameter names as keywords give the positional result; an implementation that does not
+    accept these names is not judged (the statement does not name them)"""
+    fk, _ = propagator(p, keywords=True)
+    try:
+        yk = numpy.asarray(fk(x.copy()))
+    except TypeError:
+        o.stat("keyword_call_not_claimed", 1)
+        return
+    o.stat("lib_calls", 1)
+    o.close("keyword_call_same_result", _rel(yk, y0), TOL)
 
 
 def _big(p):
@@ -174,9 +391,10 @@ def _big(p):
                 e = numpy.zeros((N, N), dtype=complex)
                 e[i, j] = unit
                 cols.append(numpy.asarray(fn(e.copy())).reshape(-1))
-                ins.append(e)
+                ins.append(((i, j), unit))
     o.stat("lib_calls", len(cols))
     T = numpy.array(cols).T
+    del cols
     finite = bool(numpy.all(numpy.isfinite(T)))
     o.check("finite_output", finite)
     if not finite or T.shape[0] != N * N:
@@ -188,29 +406,45 @@ def _big(p):
         return o
     o.close("complex_linear", _maxabs(T[:, 1::2] - 1j * T[:, 0::2]) / scale, TOL)
     # power conserved for every field in the span of these unit fields: Gram matrix = that of the inputs
-    Gin = numpy.array([[numpy.vdot(a, b) for b in ins] for a in ins])
+    # (unnormalised residual of N^2-term sums: 8e-13 at N = 2050 on the unchanged library, TOL is 130 x that)
+    Gin = numpy.array([[numpy.conj(ua) * ub if pa == pb else 0.0 for (pb, ub) in ins] for (pa, ua) in ins])
     G = T.conj().T @ T * (d_out / d1) ** 2
     o.close("power_conserved", _maxabs(G - Gin), TOL)
     coef = numpy.array([(1 + (3 * k) % 5) * (1 - 2 * (k % 3 == 0)) for k in range(len(ins))], dtype=float)
-    x = sum(ck * e for ck, e in zip(coef, ins))
-    y = numpy.asarray(fn(x.copy())).reshape(-1)
-    o.close("superposition", _maxabs(y - T @ coef) / (numpy.sum(numpy.abs(coef)) * scale), TOL)
-    # a dense field (every pixel lit): the plain sums of the statement
-    idx = numpy.arange(N * N)
-    xd = (((idx * 7) % 5 - 2.0) + 1j * ((idx * 3) % 7 - 3.0)).reshape(N, N)
-    yd = numpy.asarray(fn(xd.copy()))
-    o.stat("lib_calls", 2)
-    pin = float(numpy.sum(numpy.abs(xd) ** 2) * d1 ** 2)
-    pout = float(numpy.sum(numpy.abs(yd) ** 2) * d_out ** 2)
-    o.close("power_conserved_dense_field", abs(pout / pin - 1.0), TOL)
-    if N <= 130:
-        _scale_and_reuse(o, fn, xd)
-    xr = xd.real
-    for dt in (numpy.float64, numpy.int64):
-        yr = numpy.asarray(fn(xr.astype(dt)))
-        yc = numpy.asarray(fn(xr.astype(complex)))
-        o.close("real_dtype_input_is_same_field", _maxabs(yr - yc) / max(_maxabs(yc), 1e-300), TOL, sub=numpy.dtype(dt).name)
+    x = numpy.zeros((N, N), dtype=complex)
+    for ck, (pk, uk) in zip(coef, ins):
+        x[pk] += ck * uk
+    with warnings.catch_warnings():
+        warnings.simplefilter("ignore")
+        y = numpy.asarray(fn(x.copy())).reshape(-1)
+        o.close("superposition", _maxabs(y - T @ coef) / (numpy.sum(numpy.abs(coef)) * scale), TOL)
+        del T
+        # dense fields (every pixel lit): the plain sums of the statement, and additivity of two dense fields
+        xd = _dense(N)
+        yd = numpy.asarray(fn(xd.copy()))
         o.stat("lib_calls", 2)
+        pin = float(numpy.sum(numpy.abs(xd) ** 2) * d1 ** 2)
+        pout = float(numpy.sum(numpy.abs(yd) ** 2) * d_out ** 2)
+        o.close("power_conserved_dense_field", abs(pout / pin - 1.0), TOL)
+        xe = _dense(N, 1)
+        ye = numpy.asarray(fn(xe.copy()))
+        ys = numpy.asarray(fn(xd + (2 - 1j) * xe))
+        o.stat("lib_calls", 2)
+        o.close("additive_dense_fields", _maxabs(ys - (yd + (2 - 1j) * ye)) / max(_maxabs(yd) + 3 * _maxabs(ye), 1e-300), TOL)
+        pin = float(numpy.sum(numpy.abs(xe) ** 2) * d1 ** 2)
+        pout = float(numpy.sum(numpy.abs(ye) ** 2) * d_out ** 2)
+        o.close("power_conserved_dense_field", abs(pout / pin - 1.0), TOL, sub="second_field")
+        del ye, ys, xe
+        if N <= 130:
+            _scale_and_reuse(o, fn, xd, p)
+        elif N <= 600:
+            _histories(o, p, xd, yd)
+        xr = numpy.round(xd.real + 0.5)
+        for dt in (numpy.float64, numpy.int64):
+            yr = numpy.asarray(fn(xr.astype(dt)))
+            yc = numpy.asarray(fn(xr.astype(complex)))
+            o.close("real_dtype_input_is_same_field", _maxabs(yr - yc) / max(_maxabs(yc), 1e-300), TOL, sub=numpy.dtype(dt).name)
+            o.stat("lib_calls", 2)
     return o
 
 
@@ -221,6 +455,11 @@ EXTREME = [
     (3.0e-3, 0.005, [10.0, -10.0], [2.0, 50.0]),                    # mm waves: focal plane of order a metre
     (10.0e-6, 1.0e-5, [1.0, -0.2], [0.3]),                          # thermal IR, micron sampling
 ]
+# unit-less / non-SI numbers (textbook units, nanometres): also run with every parameter as int / numpy.int64
+UNIT_ROWS = [
+    (1.0, 1.0, [100.0, -10.0, 1000.0], [10.0, -100.0]),
+    (633.0, 10.0, [1.0e4, -1.0e4], [1.0e3]),
+]
 
 
 def _maxabs(a):
@@ -228,20 +467,31 @@ def _maxabs(a):
     return float(numpy.max(numpy.abs(a))) if a.size else 0.0
 
 
-def propagator(p):
+def _typed(v, zt):
+    """the number v in the scalar type family zt (integer types only where v is integer-valued)"""
+    if zt in ("int", "np.int64") and _integral(v):
+        return int(v) if zt == "int" else numpy.int64(int(v))
+    return float(v)
+
+
+def propagator(p, keywords=False):
     """-> (fn(U) calling the real aotools propagator, |d_out|)"""
     import aotools.opticalpropagation as op
-    N, wvl, d1 = p["N"], p["wvl"], p["d1"]
-    z = float(p["z"]) if p["zt"] == "float" else numpy.float64(p["z"])
-    if p["prop"] == "angular_spectrum":
-        d2 = p["m"] * d1
-        return (lambda U: op.angularSpectrum(U, wvl, d1, d2, z)), d2
-    if p["prop"] == "two_step":
-        d2 = p["m"] * d1
-        return (lambda U: op.twoStepFresnel(U, wvl, d1, d2, z)), d2
-    if p["prop"] == "one_step":
-        return (lambda U: op.oneStepFresnel(U, wvl, d1, z)), abs(wvl * p["z"] / (N * d1))
-    return (lambda U: op.lensAgainst(U, wvl, d1, z)), abs(wvl * p["z"] / (N * d1))
+    N, zt = p["N"], p["zt"]
+    wvl, d1 = _typed(p["wvl"], zt), _typed(p["d1"], zt)
+    z = numpy.float64(p["z"]) if zt == "np" else _typed(p["z"], zt)
+    names = KEYWORDS[p["prop"]]
+    if p["prop"] in ("angular_spectrum", "two_step"):
+        d_out = p["m"] * float(p["d1"])
+        f = op.angularSpectrum if p["prop"] == "angular_spectrum" else op.twoStepFresnel
+        args = (wvl, d1, _typed(d_out, zt), z)
+    else:
+        d_out = abs(float(p["wvl"]) * float(p["z"]) / (N * float(p["d1"])))
+        f = op.oneStepFresnel if p["prop"] == "one_step" else op.lensAgainst
+        args = (wvl, d1, z)
+    if keywords:
+        return (lambda U: f(**dict(zip(names, (U,) + args)))), d_out
+    return (lambda U: f(U, *args)), d_out
 
 
 def evaluate(p):
@@ -280,22 +530,27 @@ def evaluate(p):
         Tr, c3 = linear.operator(fn, shape, dtype=float, out_shape=shape)
     xr = ((numpy.arange(n) * 5) % 7 - 3.0)
     worst_r = _maxabs(Tr - T)
-    for dt in (numpy.float64, numpy.float32, numpy.int64):
+    for dt in (numpy.float64, numpy.int64):
         yr = numpy.asarray(fn(xr.reshape(shape).astype(dt)))
-        worst_r = max(worst_r, _maxabs(yr.reshape(-1) - T @ xr) / (3.0 * n) * (TOL / 1e-5 if dt == numpy.float32 else 1.0))   # float32 input: 1e-5
-    o.stat("lib_calls", c3 + 3)
+        worst_r = max(worst_r, _maxabs(yr.reshape(-1) - T @ xr) / (3.0 * n))
     o.close("real_dtype_input_is_same_field", worst_r / scale, TOL)
+    # ... a float32 field to single precision (2e-8 on the unchanged library, where only the lens keeps the data in
+    # single precision; an implementation that keeps a float32 field in single precision throughout reaches about
+    # 1e-7 per radian of quadratic phase)
+    yr = numpy.asarray(fn(xr.reshape(shape).astype(numpy.float32)))
+    o.close("float32_input_is_same_field", _maxabs(yr.reshape(-1) - T @ xr) / (3.0 * n * scale) / _phase_scale(p), TOL32)
+    o.stat("lib_calls", c3 + 3)
     G = T.conj().T @ T * (d_out / d1) ** 2
     o.close("power_conserved", _maxabs(G - numpy.eye(n)), TOL)
-    # the same statement on one dense input, through the plain sum formula of the statement
-    x = ((numpy.arange(n) * 7) % 5 - 2.0) + 1j * ((numpy.arange(n) * 3) % 7 - 3.0)
-    y = numpy.asarray(fn(x.reshape(shape).copy()))
+    # the same statement on one dense input (no pixel is zero), through the plain sum formula of the statement
+    x = _dense(N)
+    y = numpy.asarray(fn(x.copy()))
     o.stat("lib_calls", 1)
     pin = float(numpy.sum(numpy.abs(x) ** 2) * d1 ** 2)
     pout = float(numpy.sum(numpy.abs(y) ** 2) * d_out ** 2)
     o.close("power_conserved_dense_field", abs(pout / pin - 1.0), TOL)
     with warnings.catch_warnings():
         warnings.simplefilter("ignore")
-        _scale_and_reuse(o, fn, x.reshape(shape))
+        _scale_and_reuse(o, fn, x, p)
     o.outcome(numpy.round(T / scale, 6))
     return o
